@@ -203,6 +203,11 @@ Upd(e) ==
          /\ running' = running \ {e.o}
          /\ bad' = EndBad(e)
          /\ UNCHANGED <<tid, kind, cfg, metas, nreq, poolStart, began, fc, moves, conn, cutSeen, cancelled>>
+    [] e.ev = "end" ->
+         \* one line per journal with everything that was found in it (read by the engine when an invariant failed,
+         \* so that every violation of every journal is reported, not only the first one TLC stops at)
+         /\ PrintT("VERDICT " \o ToJson([tid |-> tid, bad |-> bad]))
+         /\ Same
     [] OTHER -> Same
 
 Next == l <= Len(Trace) /\ l' = l + 1 /\ Upd(Trace[l])
